@@ -1,19 +1,24 @@
 --------------------------- MODULE Annotation_sim ---------------------------
-(* Simulation front end of Annotation: random behaviours of MaxOps operations.  After every
-   operation a deterministic observation step records the expected views of the state that was
-   reached (evaluated unprimed, once per visited state); the history is printed when the
-   behaviour is complete.  Run with tlc -simulate, one worker. *)
+(* Simulation front end of Annotation: random behaviours of MaxOps operations.  Every operation
+   is drawn in two steps - first an operation class (uniformly among Classes, so that classes
+   with few instances such as ingest, split or restart are as frequent as those with hundreds),
+   then an instance of that class; a class that is not enabled in the state is drawn again.
+   After every operation a deterministic observation step records the expected views of the
+   state that was reached (evaluated unprimed, once per visited state); the history is printed
+   when the behaviour is complete.  Run with tlc -simulate, one worker. *)
 EXTENDS Annotation_mc
 
-VARIABLES hist, phase
+VARIABLES hist, phase, cls
 
-simvars == <<sv, mp, nxt, depth, last, elems, tagIdx, labelIdx, cnt, hist, phase>>
+simvars == <<sv, mp, nxt, depth, last, elems, tagIdx, labelIdx, cnt, fresh, hist, phase, cls>>
 
-SimInit == AInit /\ hist = <<>> /\ phase = 1
+SimInit == AInit /\ hist = <<>> /\ phase = 1 /\ cls = "init"
 SimNext ==
-    \/ phase = 0 /\ ANext /\ phase' = 1 /\ UNCHANGED hist
+    \/ phase = 0 /\ depth < MaxOps /\ \E c \in Classes : cls' = c /\ phase' = 3 /\ UNCHANGED <<allvars, hist>>
+    \/ phase = 3 /\ ANextC(cls) /\ phase' = 1 /\ UNCHANGED <<hist, cls>>
+    \/ phase = 3 /\ ~ENABLED ANextC(cls) /\ phase' = 0 /\ UNCHANGED <<allvars, hist, cls>>
     \/ phase = 1 /\ hist' = Append(hist, [l |-> last, d |-> depth, k |-> AKey, obs |-> AObs])
-                 /\ phase' = 0 /\ UNCHANGED allvars
-    \/ phase = 0 /\ depth = MaxOps /\ PrintT(ToJson(hist)) /\ phase' = 2 /\ UNCHANGED <<allvars, hist>>
+                 /\ phase' = 0 /\ UNCHANGED <<allvars, cls>>
+    \/ phase = 0 /\ depth = MaxOps /\ PrintT(ToJson(hist)) /\ phase' = 2 /\ UNCHANGED <<allvars, hist, cls>>
 ASpecSim == SimInit /\ [][SimNext]_simvars
 =============================================================================
